@@ -19,6 +19,9 @@ Mirrored Go code (as it is after the `fix:` commits listed in notes/C11.md):
   `Reset`, `Logout`, `releaseLimits`, together with go-smtp's `fromReceived`/`recipients` gating) and of
   `internal/target/remote` (`Target.Start`, `AddRcpt` → `connectionForDomain` → `conn.Rcpt` with the RCPT
   accepted / refused / failed with the connection lost, `Body`, `remoteDelivery.Close`) — `Sess`, `Rem`.
+  The keys the remote target hands to the limits are derived from the domain spellings separately at every
+  place (`RemKeys`: `rd.connections` key, `TakeDest`, `ReleaseDest` after a failed MAIL, `ReleaseDest` in
+  `Close`, `TakeMsg` in `Start`, `ReleaseMsg` in `Close`).
 
 Concurrency: any number of goroutines (`Task`), each executing Group calls one limiter operation (one
 channel operation / one critical section of `BucketSet.mLck`) at a time; the schedule (`List Ev`: who moves,
@@ -531,11 +534,48 @@ def Sess.op (s : Sess) (takeOk : Bool) : SessOp → Sess × List Call
 
 /-! ## Permit lifecycle of a remote delivery (internal/target/remote) -/
 
+/-- How `internal/target/remote` derives bucket / map keys from the DOMAIN SPELLINGS handed to it (the domain
+of the recipient given to `AddRcpt`, the domain of the sender given to `Start`), separately at each place.
+Spellings and keys are ids: one domain has many spellings (U-label as `endpoint/smtp` hands it over, A-label,
+other case, trailing dot, NFD), and what string the code passes to the limits at each place is whatever it
+computes (on the pinned tree: the spelling itself, everywhere) — the harness reads the keys off the real
+bucket tables / `rd.connections` and puts them on the op line (`j.` tokens).  Nothing in the model assumes
+they agree: agreement of the keys that are TAKEN with the keys that are RELEASED is the hypothesis
+`RemKeys.Lawful` of the lifecycle theorems, and `C11_dest_key_law_needed` shows what happens without it. -/
+structure RemKeys where
+  /-- `connectionForDomain`: key of `rd.connections` (look-up and store) -/
+  conn : Nat → Nat
+  /-- `connectionForDomain`: `rd.rt.limits.TakeDest(ctx, <key>)` -/
+  take : Nat → Nat
+  /-- `connectionForDomain`, MAIL refused / connection lost at MAIL: `rd.rt.limits.ReleaseDest(<key>)` -/
+  undo : Nat → Nat
+  /-- `remoteDelivery.Close`: `rd.rt.limits.ReleaseDest(conn.domain)` for the connection created for the spelling -/
+  close : Nat → Nat
+  /-- `Target.Start`: `rt.limits.TakeMsg(ctx, addr, <key>)` (domain of the sender) -/
+  src : Nat → Nat
+  /-- `remoteDelivery.Close`: `rd.rt.limits.ReleaseMsg(addr, <key>)` -/
+  srcRel : Nat → Nat
+
+instance : Repr RemKeys := ⟨fun _ _ => "<remkeys>"⟩
+
+/-- Every spelling is its own key, everywhere (the pinned tree). -/
+def RemKeys.same : RemKeys :=
+  { conn := fun d => d, take := fun d => d, undo := fun d => d, close := fun d => d, src := fun d => d,
+    srcRel := fun d => d }
+
+/-- What is released is released under the key it was taken under: the destination permit in the MAIL-failure
+path of `connectionForDomain` and in `Close`, the message permits in `Close`.  (`conn` is free: spellings that
+share an entry of `rd.connections` share one permit.) -/
+def RemKeys.Lawful (k : RemKeys) : Prop :=
+  ∀ d, k.undo d = k.take d ∧ k.close d = k.take d ∧ k.srcRel d = k.src d
+
 structure Rem where
   ip : Nat
+  /-- spelling of the sender domain given to `Start` -/
   dom : Nat
   started : Bool := false
-  conns : List Nat := []      -- keys of rd.connections
+  /-- `rd.connections`: (map key, key `Close` will hand to `ReleaseDest` = `conn.domain`) -/
+  conns : List (Nat × Nat) := []
 deriving DecidableEq, Repr
 
 /-- What the next hop did with the RCPT command sent over the connection `connectionForDomain` returned. -/
@@ -548,7 +588,7 @@ deriving DecidableEq, Repr
 inductive RemOp
   | start                                      -- Target.Start
   | addRcpt (d : Nat) (connOk mailOk : Bool) (rc : RcptRes := .accepted)
-                                               -- AddRcpt → connectionForDomain(d) → conn.Rcpt
+                                               -- AddRcpt → connectionForDomain(d) → conn.Rcpt; d = domain SPELLING
   | body                                       -- Body / BodyNonAtomic: DATA on every entry of rd.connections
   | close                                      -- Commit/Abort → Close
 deriving DecidableEq, Repr
@@ -562,20 +602,23 @@ def Rem.rcpt (r : Rem) (_d : Nat) : RcptRes → Rem × List Call
   | .refused => (r, [])
   | .lost => (r, [])
 
-def Rem.op (r : Rem) (takeOk : Bool) : RemOp → Rem × List Call
+def Rem.hasConn (r : Rem) (ck : Nat) : Bool := r.conns.any (fun p => p.1 == ck)
+
+def Rem.op (k : RemKeys) (r : Rem) (takeOk : Bool) : RemOp → Rem × List Call
   | .start =>
     if r.started then (r, [])
-    else if takeOk then ({ r with started := true, conns := [] }, [Call.takeMsg r.ip r.dom])
-    else (r, [Call.takeMsg r.ip r.dom])
+    else if takeOk then ({ r with started := true, conns := [] }, [Call.takeMsg r.ip (k.src r.dom)])
+    else (r, [Call.takeMsg r.ip (k.src r.dom)])
   | .addRcpt d connOk mailOk rc =>
     if !r.started then (r, [])
-    else if r.conns.contains d then r.rcpt d rc        -- connection of this delivery reused
+    else if r.hasConn (k.conn d) then r.rcpt d rc      -- connection of this delivery reused
     else if !connOk then (r, [])                       -- MX lookup / connect / greeting / TLS / policy failed
-    else if !takeOk then (r, [Call.takeDest d])
-    else if !mailOk then (r, [Call.takeDest d, Call.relDest d])   -- MAIL refused / connection lost at MAIL
+    else if !takeOk then (r, [Call.takeDest (k.take d)])
+    else if !mailOk then (r, [Call.takeDest (k.take d), Call.relDest (k.undo d)])
+                                                       -- MAIL refused / connection lost at MAIL
     else
-      let r' := ({ r with conns := d :: r.conns } : Rem).rcpt d rc
-      (r'.1, Call.takeDest d :: r'.2)
+      let r' := ({ r with conns := (k.conn d, k.close d) :: r.conns } : Rem).rcpt d rc
+      (r'.1, Call.takeDest (k.take d) :: r'.2)
   | .body =>
     -- DATA accepted, refused or lost on any connection: `errored` is set (the connection is closed instead
     -- of pooled by `Close`), `rd.connections` keeps every entry, no Group call.
@@ -583,7 +626,7 @@ def Rem.op (r : Rem) (takeOk : Bool) : RemOp → Rem × List Call
   | .close =>
     if !r.started then (r, [])
     else ({ r with started := false, conns := [] },
-      r.conns.map Call.relDest ++ [Call.relMsg r.ip r.dom])
+      r.conns.map (fun p => Call.relDest p.2) ++ [Call.relMsg r.ip (k.srcRel r.dom)])
 
 /-! ## Outstanding takes of a sequence of Group calls (specification side of "releases what it took") -/
 
@@ -611,11 +654,11 @@ def Sess.run (s : Sess) (o : Out) : List (SessOp × Bool) → Option (Sess × Ou
     | none => none
     | some o' => Sess.run (s.op ok op).1 o' rest
 
-def Rem.run (r : Rem) (o : Out) : List (RemOp × Bool) → Option (Rem × Out)
+def Rem.run (k : RemKeys) (r : Rem) (o : Out) : List (RemOp × Bool) → Option (Rem × Out)
   | [] => some (r, o)
   | (op, ok) :: rest =>
-    match track ok o (r.op ok op).2 with
+    match track ok o (r.op k ok op).2 with
     | none => none
-    | some o' => Rem.run (r.op ok op).1 o' rest
+    | some o' => Rem.run k (r.op k ok op).1 o' rest
 
 end MaddyVerif.Limits
